@@ -59,7 +59,7 @@ def run(ck):
     ck.check_theorems()
     from harness import selectarith
     selectarith.check_translation(ck)
-    temps = [0.0, 0.5, 1.0, 2.0, 4.0]
+    temps = [0.0, 0.00390625, 0.5, 1.0, 2.0, 4.0]          # includes a tiny positive temperature (2^-8): soft routing, not hard
     alphabet = [0.0, 1.0, 2.0]
     rng = ck.rng
     configs = []
@@ -148,7 +148,7 @@ def run(ck):
         n = int(nr.integers(120, 260)); d = 3; L = int(nr.integers(20, 50))
         X = xr.make_X('random', n, d, nr); y = xr.make_y(task, X, nr, n_classes=2 if metric in ('f1', 'auc') or i % 2 else 3)
         Xv = xr.make_X('random', 80, d, nr); yv = xr.make_y(task, Xv, nr, n_classes=int(y.max()) + 1 if task == 'class' else 3)
-        space = [0.0, 0.05, 0.3, 1.0, 3.0] if i % 3 else [0.3, 0.0, 2.0]
+        space = [0.0, 0.05, 0.3, 1.0, 3.0] if i % 3 else ([0.3, 0.0, 2.0] if i % 2 else [0.004, 0.0, 0.3, 1.5])
         xr.seed_all(4200 + i + ck.seed)
         # every fourth fit: three trees requested but the time budget lets only the first be built (time_limit_s=0 is deterministic)
         cut = (i % 4 == 1)
